@@ -17,7 +17,9 @@
 package cdi
 
 import (
+	"bytes"
 	"encoding/json"
+	"errors"
 	"fmt"
 	"os"
 	"path/filepath"
@@ -137,7 +139,7 @@ func (s *Spec) write(overwrite bool) error {
 	}
 
 	if filepath.Ext(s.path) == ".yaml" {
-		data, err = orderedyaml.Marshal(s.Spec)
+		data, err = marshalYAML(s.Spec)
 		data = append([]byte("---\n"), data...)
 	} else {
 		data, err = json.Marshal(s.Spec)
@@ -178,6 +180,33 @@ func (s *Spec) write(overwrite bool) error {
 	verifPoint("write.done", s.path, err)
 
 	return err
+}
+
+// marshalYAML marshals the Spec as YAML and makes sure it reads back unchanged.
+// yaml.v3 keeps the field order, but the block scalars it writes for strings
+// with a leading line break lose that line break ("\nx" is read back as "x"),
+// and are not valid YAML for some strings (a tab before a line break). The
+// JSON-based encoder gets these right but alters others (U+0085). Use the
+// first of the two whose output parses back to the Spec we were given.
+func marshalYAML(spec *cdi.Spec) ([]byte, error) {
+	want, err := json.Marshal(spec)
+	if err != nil {
+		return nil, err
+	}
+	for _, marshal := range []func(interface{}) ([]byte, error){orderedyaml.Marshal, yaml.Marshal} {
+		data, err := marshal(spec)
+		if err != nil {
+			continue
+		}
+		check, err := ParseSpec(data)
+		if err != nil || check == nil {
+			continue
+		}
+		if got, err := json.Marshal(check); err == nil && bytes.Equal(got, want) {
+			return data, nil
+		}
+	}
+	return nil, errors.New("Spec can't be written as YAML and read back unchanged")
 }
 
 // escapeJSONForYAML escapes DEL, the C1 control characters (U+007F-U+009F) and
